@@ -378,6 +378,10 @@ func runC12(c *Ctx) {
 			}
 			mal("decoded-length+1+empty-reads", good, len(payload)+1, "-", "reject")
 			mal("decoded-length-0", good, 0, "-", "reject")
+			// declared lengths beyond what a server would preallocate: a short payload is still short
+			for _, big := range []int{64<<20 - 1, 64 << 20, 64<<20 + 1, 100 << 20, 5 << 30} {
+				mal("decoded-length-far-above-payload", good, big, fmt.Sprintf("declared=%d", big), "reject")
+			}
 			rep1 := func(old, new string) []byte { return []byte(strings.Replace(string(good), old, new, 1)) }
 			mal("bad-hex-size", append([]byte("zz"), good[2:]...), len(payload), "first header", "reject")
 			mal("missing-semicolon", rep1(";chunk-signature=", " chunk-signature="), len(payload), "first header", "reject")
